@@ -76,25 +76,34 @@ func labelsFor(p *pkgSpec, es *elemSpec, root bool) labelSet {
 	return ls
 }
 
+// treeGen grows trees; every node costs one deviation, so the explorer's
+// deviation bound is the node budget and the cheapest violation kept per
+// signature is the one with the fewest nodes.
 type treeGen struct {
-	c      *nd.Ctx
-	p      *pkgSpec
-	budget int
-	dup    bool // the tree repeats an attribute or has two adjacent text nodes: not a new case
+	c   *nd.Ctx
+	p   *pkgSpec
+	off bool // no nodes at all
+	dup bool // the tree repeats an attribute or has two adjacent text nodes: not a new case
+}
+
+func (t *treeGen) left() int {
+	if t.off {
+		return 0
+	}
+	return t.c.Remaining()
 }
 
 func (t *treeGen) element(es *elemSpec, root bool) *tnode {
 	n := &tnode{name: es.name}
-	if t.budget <= 0 {
+	if t.left() <= 0 {
 		return n
 	}
 	ls := labelsFor(t.p, es, root)
-	for t.budget > 0 {
-		k := t.c.Choose(1+len(ls), "node")
+	for t.left() > 0 {
+		k := t.c.ChooseCost(1+len(ls), "node", 1)
 		if k == 0 {
 			break
 		}
-		t.budget--
 		l := ls[k-1]
 		switch l.kind {
 		case lElem:
@@ -169,15 +178,22 @@ func (n *tnode) write(b *strings.Builder, defNS, stanzaNS string) {
 // ---- stanza headers -------------------------------------------------------
 
 type header struct {
-	kind             string
+	kind              string
 	typ, from, to, id string // "-" = attribute absent
+	lang              string // xml:lang; "" or "-" = absent ... see open
 }
 
 const absent = "-"
 
 func (h header) open(b *strings.Builder) {
 	b.WriteString("<" + h.kind)
-	for _, a := range [][2]string{{"type", h.typ}, {"id", h.id}, {"from", h.from}, {"to", h.to}} {
+	lang := h.lang
+	if lang == "" {
+		lang = absent // zero value: no xml:lang
+	} else if lang == "empty" {
+		lang = ""
+	}
+	for _, a := range [][2]string{{"type", h.typ}, {"id", h.id}, {"from", h.from}, {"to", h.to}, {"xml:lang", lang}} {
 		if a[1] != absent {
 			b.WriteString(" " + a[0] + `="`)
 			escAttr(b, a[1])
